@@ -159,6 +159,9 @@ struct VAtomic {
 	VAtomic(T v) : value(v) {}
 	const char * name() const {
 		if(g && (const void *)this == g->ec) return "cur";
+#ifdef VC_HSLOT
+		if(g) return "cur";     // the generation counter of a lazily created list (its address is not known beforehand)
+#endif
 		return nullptr;
 	}
 	void pre(const char * op) const {
@@ -203,6 +206,9 @@ using CL = eventpp::CallbackList<void(int), Policies>;
 
 static void hookPoint(const char * tag) {
 	if(tag[0] == 'c' && tag[1] == 'l' && schedulable()) { yieldPoint(); g->step(tag); }
+#ifdef VC_HSLOT
+	if(tag[0] == 'h' && tag[1] == 'l' && schedulable()) { yieldPoint(); g->step(tag); }
+#endif
 }
 
 struct Run {
@@ -378,6 +384,87 @@ static void runOne(const Run & r) {
 		std::fflush(stdout);
 	}
 }
+
+#ifdef VC_HSLOT
+// variant: first use of a prototype slot of a HeterCallbackList by several threads (Conc/HeterSlot.lean).
+// Every thread appends its callbacks (kind void(int)) to ONE heterogeneous list; the steps are the unlocked reads of
+// the slot (markers "hl.slot"), the critical section of callbackListListMutex ("map") and the completed append ("app").
+#include <eventpp/hetercallbacklist.h>
+using HL = eventpp::HeterCallbackList<eventpp::HeterTuple<void(int), void(const std::string &)>, Policies>;
+struct SlotCb { long id; void operator()(int) const {} };
+
+static void runSlot(const Run & r) {
+	Sched s;
+	g = &s;
+	s.n = (int)r.progs.size();
+	s.st.assign(s.n, T_READY);
+	s.timed.assign(s.n, false);
+	s.timedOut.assign(s.n, false);
+	s.want.assign(s.n, 0);
+	s.rng = r.seed * 2654435761ULL + 12345;
+	s.spur = 0;
+	std::vector<std::vector<std::string>> done(s.n);
+	{
+		HL hl;
+		s.qm2 = &hl.callbackListListMutex;
+		eventpp::verif_::pointHook() = &hookPoint;
+		std::vector<std::thread> th;
+		s.active = true;
+		for(int t = 0; t < s.n; ++t) {
+			th.emplace_back([&, t]() {
+				tl_tid = t; tl_held = 0; tl_heldMap = 0; tl_inPred = false;
+				try {
+					{
+						std::unique_lock<std::mutex> lk(s.m);
+						s.cv.wait(lk, [&] { return s.current == t || s.abort; });
+						if(s.abort && s.current != t) throw AbortRun();
+						s.st[t] = T_RUNNING;
+					}
+					for(auto & c : r.progs[t]) {
+						if(c[0] != "append" || c.size() < 2) continue;
+						long id = std::atol(c[1].c_str());
+						hl.append(SlotCb{id});
+						// the append has returned: one model step (nothing can run between the list's critical section and here)
+						g->step("app");
+						done[t].push_back(c[1]);
+					}
+					{
+						std::unique_lock<std::mutex> lk(s.m);
+						s.st[t] = T_FINISHED;
+						s.pickNext();
+					}
+					tl_tid = -1;
+				}
+				catch(const AbortRun &) { tl_tid = -1; }
+			});
+		}
+		{
+			std::unique_lock<std::mutex> lk(s.m);
+			s.pickNext();
+			s.cv.wait(lk, [&] { return s.current == -1; });
+			s.active = false;
+			s.abort = true;
+			s.cv.notify_all();
+		}
+		for(auto & t : th) t.join();
+		eventpp::verif_::pointHook() = nullptr;
+		g = nullptr;
+		std::printf("--- %s\n", r.name.c_str());
+		for(auto & l : s.log) std::puts(l.c_str());
+		for(int t = 0; t < s.n; ++t) {
+			std::string l = "done " + std::to_string(t) + " :";
+			for(auto & x : done[t]) l += " " + x;
+			std::puts(l.c_str());
+		}
+		std::string fl = "final :";
+		hl.forEach<void(int)>([&fl](const std::function<void(int)> & cb) { const SlotCb * p = cb.target<SlotCb>(); fl += " " + std::to_string(p ? p->id : -1); });
+		std::puts(fl.c_str());
+		std::printf("terminal %d\n", s.terminal ? 1 : 0);
+		std::fflush(stdout);
+	}
+}
+#define runOne runSlot
+#endif
 
 int main() {
 	std::string line;
